@@ -162,6 +162,13 @@ func (e *Executor) RunTask(ctx context.Context, call *Call) error {
 		}
 
 		skipFingerprinting := e.ForceAll || (!call.Indirect && e.Force)
+		if skipFingerprinting {
+			// Forcing a task only overrides its up-to-date check: a precondition
+			// that is not met still fails it
+			if _, err := e.areTaskPreconditionsMet(ctx, t); err != nil {
+				return err
+			}
+		}
 		if !skipFingerprinting {
 			if err := ctx.Err(); err != nil {
 				return err
